@@ -155,6 +155,9 @@ func runInbound(c *run.Ctx, ip inboundParams) *inboundRun {
 	bigRng := rand.New(rand.NewSource(c.Rng.Int63())) // the read routine's own
 	w.Mu.Lock()
 	w.Broker.ReuseIDs = c.Rng.Float64() < ip.PReuse
+	// the broker's identifiers may coincide with the client's own (0x8000…, 0xc000…)
+	w.Broker.IDBase = []uint16{1, 1, 1, 0x7ffe, 0x8000, 0xc000, 0xfffd}[c.Rng.Intn(7)]
+	w.Broker.State.NextID = w.Broker.IDBase
 	w.Mu.Unlock()
 	ep.D.Manual = true
 	ep.D.BigRead = func(b *mqtt.BigMessage) bool { return bigRng.Intn(3) != 0 }
